@@ -21,6 +21,14 @@
 
   Time is logical: a task that does not answer makes `RunCommand` return its time-out error;
   the deploy loop either sees the root status ACTIVE or gives up.
+
+  Executor / agent loss (Mesos FAILURE event) while a command is outstanding: `Loss`, and the roster-level model
+  `RTask` / `handleExecutorFailed` / `handleAgentFailed` / `getTask` / `classifyR` further down
+  (core/task/manager.go HandleExecutorFailed, HandleAgentFailed, GetTask). A loss does NOT enter the classification of the
+  command's responses: the task behind a failed target is looked up by its task id alone, and the loss only blanks the
+  task's executor id / agent id. What it does change: a reply that had not left never comes (`Outcome.under`), the tasks
+  hit are no longer ACTIVE (`loseTasks`), and when a critical one is among them the environment's own watcher drives
+  the environment to ERROR as soon as it gets the transition mutex (`critLost`).
 -/
 import ControlModel.Model.Env
 import ControlModel.Model.RoleTree
@@ -68,6 +76,32 @@ structure Task where
 
 /-- A commanded task: (critical, what it will do). -/
 abbrev Target := Bool × Outcome
+
+/-- The executor or the agent of a commanded task is lost (Mesos FAILURE event handled by `HandleExecutorFailed` /
+    `HandleAgentFailed`) while the command is outstanding. -/
+structure Loss where
+  agent : Bool        -- false: the executor failed, true: the whole agent
+  withUpdate : Bool   -- the task's terminal status update (TASK_FAILED / TASK_LOST) precedes the FAILURE event
+  before : Bool       -- the loss precedes the task's reply: the reply never leaves
+  deriving DecidableEq, Repr, Inhabited
+
+/-- A reply is on its way (the three outcomes that answer). -/
+def Outcome.replies : Outcome → Bool
+  | .ok => true
+  | .errorReplyStaySrc => true
+  | .errorReplyToError => true
+  | _ => false
+
+/-- What the target does, given the loss: a reply that had not left is never sent. -/
+def Outcome.under (o : Outcome) : Option Loss → Outcome
+  | some l => if l.before && o.replies then .silent else o
+  | none => o
+
+/-- Per-task losses (parallel to the task list, missing = none) applied to the scripted outcomes. -/
+def effOuts : List (Option Loss) → List Outcome → List Outcome
+  | [], os => os
+  | _ :: _, [] => []
+  | l :: ls, o :: os => o.under l :: effOuts ls os
 
 /-- `workflow.GetActiveTasks`: only tasks whose role is ACTIVE are commanded. -/
 def targets (ps : List (Task × Outcome)) : List Target :=
@@ -217,6 +251,7 @@ structure Obs where
   cmd : List Nat
   runningAcked : Bool := false   -- NewEnvironment failed in DEPLOY although every task was running (and the core had
                                  -- acknowledged every TASK_RUNNING update) well before the deadline
+  lost : List Nat := []          -- indices of the live tasks whose executor / agent was lost during the request
   deriving DecidableEq, Repr
 
 def indexed {α} (xs : List α) : List (Nat × α) := (List.range xs.length).zip xs
@@ -232,6 +267,26 @@ def pair (tasks : List Task) (outs : List Outcome) : List (Task × Outcome) :=
 /-- A task that died is no longer ACTIVE. -/
 def afterCommand (tasks : List Task) (outs : List Outcome) : List Task :=
   (pair tasks outs).map (fun p => if p.1.active && p.2 = .dies then { p.1 with active := false } else p.1)
+
+/-- The tasks hit by a loss are no longer ACTIVE (status INACTIVE, state ERROR). -/
+def loseTasks : List (Option Loss) → List Task → List Task
+  | [], ts => ts
+  | _ :: _, [] => []
+  | l :: ls, t :: ts => (if l.isSome then { t with active := false } else t) :: loseTasks ls ts
+
+/-- A critical ACTIVE task is among those hit: its role goes to ERROR, the environment's watcher reacts. -/
+def critLost : List (Option Loss) → List Task → Bool
+  | [], _ => false
+  | _ :: _, [] => false
+  | l :: ls, t :: ts => (l.isSome && t.critical && t.active) || critLost ls ts
+
+/-- Indices of the live tasks hit. -/
+def lostFrom (i : Nat) : List (Option Loss) → List Task → List Nat
+  | [], _ => []
+  | _ :: _, [] => []
+  | l :: ls, t :: ts => (if l.isSome && t.active then [i] else []) ++ lostFrom (i + 1) ls ts
+
+def lostIdx (ls : List (Option Loss)) (tasks : List Task) : List Nat := lostFrom 0 ls tasks
 
 structure Workflow where
   calls : Nat
@@ -265,39 +320,46 @@ def bodyFor (cfg : Cfg) (e : Ev) (ts : List Target) : BodyRes :=
   | .RESET => commandBody cfg ts
   | _ => .ok      -- EXIT / GO_ERROR / RECOVER / DEPLOY (through the API: re-deploys nothing here) command no task
 
-/-- One ControlEnvironment request. -/
-def controlStep (cfg : Cfg) (env : Env) (tasks : List Task) (e : Ev) (outs : List Outcome) (watcherFirst : Bool) :
-    Obs × Env × List Task :=
-  let ts := targets (pair tasks outs)
+/-- One ControlEnvironment request; `ls`: executors / agents lost while its command is outstanding.
+    When a critical live task is hit and the transition nevertheless succeeds (the task had acknowledged before), the
+    environment's watcher performs GO_ERROR as soon as the transition mutex is free: the state afterwards is ERROR, and
+    the state in the reply is ERROR too if the watcher got there before the handler read it (`watcherFirst`). -/
+def controlStep (cfg : Cfg) (env : Env) (tasks : List Task) (e : Ev) (outs : List Outcome) (watcherFirst : Bool)
+    (ls : List (Option Loss) := []) : Obs × Env × List Task :=
+  let outs' := effOuts ls outs
+  let ts := targets (pair tasks outs')
   -- a command is sent only if the event is possible in the current state (before_event / leave_state come first)
   let legal := (dst? e env.st).isSome
   let cmd := if legal then cmdIdx tasks else []
+  let cl := legal && critLost ls tasks
   match (if legal then bodyFor cfg e ts else .error) with
   | .hang => ({ ev := some e, rpc := .hang, state := none, after := some env.st, cmd := [] }, env, tasks)
   | b =>
     let r := controlRpc cfg env [] e (b = .ok) false watcherFirst
-    ({ ev := some e, rpc := if r.2 then .ok else .err, state := if r.2 then some r.1.st else none,
-       after := some r.1.st, cmd := cmd },
-     r.1, if legal then afterCommand tasks outs else tasks)
+    ({ ev := some e, rpc := if r.2 then .ok else .err,
+       state := if r.2 then some (if cl && watcherFirst then .ERROR else r.1.st) else none,
+       after := some (if cl then .ERROR else r.1.st), cmd := cmd, lost := if legal then lostIdx ls tasks else [] },
+     r.1, if legal then loseTasks ls (afterCommand tasks outs') else tasks)
 
 inductive SStep where
-  | ctl (e : Ev) (outs : List Outcome) (watcherFirst : Bool)
+  | ctl (e : Ev) (outs : List Outcome) (watcherFirst : Bool) (ls : List (Option Loss))
   | die (outs : List Outcome)        -- tasks marked `dies` terminate while no transition is in progress
   deriving Repr
 
 def SStep.hasUndeliverable : SStep → Bool
-  | .ctl _ outs _ => outs.any (· = .undeliverable)
+  | .ctl _ outs _ _ => outs.any (· = .undeliverable)
   | .die _ => false
 
-/-- The harness stops after the first request that did not report its destination, and after a request with an
-    undeliverable command (the scheduler client of the core does not recover from a failed call). -/
+/-- The harness stops after the first request that did not report its destination, after a request with an
+    undeliverable command (the scheduler client of the core does not recover from a failed call), and after a request
+    during which a critical live task was lost (the watcher has taken the environment to ERROR). -/
 def runSteps (cfg : Cfg) (env : Env) (tasks : List Task) : List SStep → List Obs
   | [] => []
   | .die outs :: rest => runSteps cfg env (afterCommand tasks outs) rest
-  | .ctl e outs w :: rest =>
-    let r := controlStep cfg env tasks e outs w
+  | .ctl e outs w ls :: rest =>
+    let r := controlStep cfg env tasks e outs w ls
     let reached := r.1.rpc = .ok ∧ r.1.state = dst? e env.st ∧ (dst? e env.st).isSome
-    if reached ∧ !(SStep.hasUndeliverable (.ctl e outs w)) then r.1 :: runSteps cfg r.2.1 r.2.2 rest
+    if reached ∧ !(SStep.hasUndeliverable (.ctl e outs w ls)) ∧ critLost ls tasks = false then r.1 :: runSteps cfg r.2.1 r.2.2 rest
     else [r.1]
 
 structure Scenario where
@@ -312,5 +374,107 @@ def run (cfg : Cfg) (sc : Scenario) : List Obs :=
   | some (env, tasks) =>
     if sc.configure.any (· = .undeliverable) then [c.1] else c.1 :: runSteps cfg env tasks sc.steps
   | none => [c.1]
+
+/-! ### the roster: which task a failed target belongs to, and executor / agent loss
+
+  `transitionTasks` / `configureTasks` classify the error entries of a multi-response by the task behind each entry:
+  `task := m.GetTask(k.TaskId.Value)` — a scan of the roster by TASK ID, done when the responses are in. The entries are
+  keyed by the `MesosCommandTarget {AgentId, ExecutorId, TaskId}` computed when the command was built. In between, Mesos
+  may report the executor or the agent of a target lost: `HandleExecutorFailed` / `HandleAgentFailed` blank
+  `task.executorId` / `task.agentId` of every roster task on it (the task stays in the roster, its id stays). -/
+
+/-- A task as the task manager's roster holds it. -/
+structure RTask where
+  taskId : Nat
+  agentId : Option Nat       -- none: blanked by HandleAgentFailed
+  executorId : Option Nat    -- none: blanked by HandleExecutorFailed
+  critical : Bool            -- own trait or the parent role's
+  deriving DecidableEq, Repr
+
+/-- `MesosCommandTarget`: the key of a response entry. -/
+structure CmdTarget where
+  agentId : Option Nat
+  executorId : Option Nat
+  taskId : Nat
+  deriving DecidableEq, Repr
+
+/-- `Task.GetMesosCommandTarget` (evaluated when the command is built). -/
+def RTask.target (t : RTask) : CmdTarget := ⟨t.agentId, t.executorId, t.taskId⟩
+
+/-- A Mesos FAILURE event. -/
+inductive LossEv where
+  | executor (x : Nat)
+  | agent (a : Nat)
+  deriving DecidableEq, Repr
+
+/-- `Manager.HandleExecutorFailed`: `t.executorId = ""` for every roster task of that executor. -/
+def handleExecutorFailed (x : Nat) (r : List RTask) : List RTask :=
+  r.map (fun t => if t.executorId = some x then { t with executorId := none } else t)
+
+/-- `Manager.HandleAgentFailed`: `t.agentId = ""` for every roster task of that agent. -/
+def handleAgentFailed (a : Nat) (r : List RTask) : List RTask :=
+  r.map (fun t => if t.agentId = some a then { t with agentId := none } else t)
+
+def applyLoss : LossEv → List RTask → List RTask
+  | .executor x, r => handleExecutorFailed x r
+  | .agent a, r => handleAgentFailed a r
+
+/-- Any number of FAILURE events, in the order they are handled. -/
+def applyLosses (L : List LossEv) (r : List RTask) : List RTask := L.foldl (fun r l => applyLoss l r) r
+
+/-- `Manager.GetTask(id)`: the first roster task with that task id. -/
+def getTask (r : List RTask) (id : Nat) : Option RTask := r.find? (fun t => t.taskId == id)
+
+/-- Multi-response branch: `task != nil && (task.GetTraits().Critical || parent…Critical)`; a task that is not found
+    lands in the non-critical bucket. -/
+def critOfFailed (r : List RTask) (k : CmdTarget) : Bool :=
+  match getTask r k.taskId with
+  | some t => t.critical
+  | none => false
+
+/-- `Manager.isCriticalTarget` (single-response branch): a task that is not found counts as critical. -/
+def isCriticalTarget (r : List RTask) (k : CmdTarget) : Bool :=
+  match getTask r k.taskId with
+  | some t => t.critical
+  | none => true
+
+/-- The tail of `transitionTasks` / `configureTasks` on the response entries (key, carries an error), reading the
+    roster `r` as it is WHEN THE RESPONSES ARE IN. -/
+def classifyR (cfg : Cfg) (r : List RTask) : List (CmdTarget × Bool) → Bool
+  | [] => false
+  | [e] => if cfg.singleUsesCritical then !(isCriticalTarget r e.1 && e.2) else !e.2
+  | e :: e' :: es => !((e :: e' :: es).any (fun x => critOfFailed r x.1 && x.2))
+
+/-- `commit` with its keys: one entry per commanded task, keyed by the target computed BEFORE the command is sent. -/
+def commitR (cs : List (RTask × Outcome)) : List (CmdTarget × Bool) :=
+  cs.map (fun c => (c.1.target, entryErr (runCommand c.2)))
+
+/-- `transitionTasks` on the roster: the tasks `cs` are commanded, the FAILURE events `L` are handled while the command
+    is outstanding, then the responses are classified. -/
+def transitionTasksR (cfg : Cfg) (r : List RTask) (cs : List (RTask × Outcome)) (L : List LossEv) : Bool :=
+  if cfg.emptyIsSuccess && cs.isEmpty then true
+  else classifyR cfg (applyLosses L r) (commitR cs)
+
+def configureTasksR (cfg : Cfg) (r : List RTask) (cs : List (RTask × Outcome)) (L : List LossEv) : Bool :=
+  if cs.isEmpty then false
+  else classifyR cfg (applyLosses L r) (commitR cs)
+
+/-- `bodyFor` on the roster, with losses. -/
+def bodyForR (cfg : Cfg) (e : Ev) (r : List RTask) (cs : List (RTask × Outcome)) (L : List LossEv) : BodyRes :=
+  match e with
+  | .CONFIGURE =>
+    if cs.isEmpty then (if cfg.emptyIsSuccess then .ok else .hang)
+    else if configureTasksR cfg r cs L then .ok else .error
+  | .START_ACTIVITY => if transitionTasksR cfg r cs L then .ok else .error
+  | .STOP_ACTIVITY => if transitionTasksR cfg r cs L then .ok else .error
+  | .RESET => if transitionTasksR cfg r cs L then .ok else .error
+  | _ => .ok
+
+/-- The commanded tasks as `bodyFor` sees them. -/
+def plainTargets (cs : List (RTask × Outcome)) : List Target := cs.map (fun c => (c.1.critical, c.2))
+
+/-- The commanded tasks are roster tasks, and task ids are unique in the roster. -/
+def RosterOk (r : List RTask) (cs : List (RTask × Outcome)) : Prop :=
+  (∀ t ∈ r, ∀ t' ∈ r, t.taskId = t'.taskId → t = t') ∧ (∀ c ∈ cs, c.1 ∈ r)
 
 end Trans
